@@ -681,6 +681,17 @@ func (fe *FnEnc) externModel(key string, f *ssa.Function, args []Val, rt types.T
 		n := s.fresh("err", "Int")
 		s.assert("(not (= " + n + " 0))")
 		return Val{T: rt, Term: n}, true
+	case "sort.Slice", "sort.SliceStable":
+		// reorders the elements of the slice it is handed: the order is not modelled (the elements are
+		// havocked, the length stays); the comparison closure's own writes are havocked as for any closure argument
+		if len(args) == 2 && args[0].Boxed != nil && args[0].Boxed.View != nil {
+			s.note("%s in %s: the slice's elements are havocked (order not modelled)", key, fe.fnName())
+			fe.havocReachable(*args[0].Boxed)
+			if args[1].Clo != nil {
+				fe.closureArgEffects(args[1].Clo, key)
+			}
+			return Val{}, true
+		}
 	case "fmt.Sprintf", "fmt.Sprint", "fmt.Sprintln", "strconv.Itoa", "strconv.FormatUint", "encoding/hex.EncodeToString":
 		return Val{T: rt, Term: s.fresh("str", "Str")}, true
 	case "fmt.Println", "fmt.Printf", "log.Printf", "log.Println":
